@@ -10,11 +10,11 @@
    binder" to full typing: operands are i64, the branches of a conditional / the body of a let / the
    clauses of a case have the type of the whole term, arguments follow the signature of the callee /
    the xtor IN THE COMPILED DECLARATIONS, clauses follow the xtors of the type in declaration order
-   with pairwise distinct parameters; the type of every variable OCCURRENCE, of every let variable, label,
+   with pairwise distinct parameters; the type of every let variable, label, goto target,
    argument position and definition parameter is declared (a clause parameter that is never used may have an
    undeclared type: the checker's output is not closed under the types it mentions, C15).  All term forms (data and codata, labels,
    consumer arguments).  Excluded: calls of `main` (known finding call-to-main), a `main` whose body is
-   not of type i64 (finding main-return-type: the exit continuation of compile_main is typed with the
+   not of type i64 (finding main-non-integer-result: the exit continuation of compile_main is typed with the
    body's annotation).
    The capture guard is the negation of [shadowing_risk] (Model/Fun2Core.v), the syntactic detector of
    the known finding capture-under-binder that modelrun wt-stages uses for its verdict: the translation
@@ -62,13 +62,13 @@ Section TyGuard.
       | _, _ => false
       end in
     match t with
-    | FVar v ty _ => var_ok G v ty CPrd && ann_ok ty
+    | FVar v ty _ => var_ok G v ty CPrd
     | FLit _ => true
     | FOp a _ b => tg G a && tg G b && has_ty a CI64 && has_ty b CI64
     | FIfC _ a b t1 t2 ty =>
         tg G a && has_ty a CI64
         && (match b with Some b' => tg G b' && has_ty b' CI64 | None => true end)
-        && tg G t1 && tg G t2 && same_ty t1 ty && same_ty t2 ty && ann_ok ty
+        && tg G t1 && tg G t2 && same_ty t1 ty && same_ty t2 ty
     | FPrint _ a next ty => tg G a && has_ty a CI64 && tg G next && same_ty next ty
     | FLet v vty bound body ty =>
         tg G bound && has_ty bound (compile_ty vty) && tyd (compile_ty vty)
